@@ -189,12 +189,19 @@ func (s *scheduler) runActor(a *schedActor) {
 	for i, op := range a.prog {
 		s.mu.Lock()
 		a.pc, a.cur, a.inCall = i, op, true
+		if op.Op == "abort" {
+			// Abort is a decision: from the call on the transaction's writes are void and its locks may be
+			// released at any step, so the event is logged when the call starts
+			s.log.Emit(Ev{"op": "abort", "tx": op.Tx, "actor": a.name})
+		}
 		s.mu.Unlock()
 		ev := s.st.exec(op)
 		s.mu.Lock()
 		a.inCall = false
-		ev["actor"] = a.name
-		s.log.Emit(ev)
+		if op.Op != "abort" {
+			ev["actor"] = a.name
+			s.log.Emit(ev)
+		}
 		s.mu.Unlock()
 	}
 }
